@@ -147,6 +147,7 @@ type Contract struct {
 	Inline   bool
 	Swar     []string // escape tables for which the SWAR mask lemma is proved and used
 	IsFuncType bool
+	Measure  *Clause // termination measure for (mutually) recursive functions
 	Implements string // this function is a value of the named function type: verified against that contract too
 	Reads    []string
 	HasReads bool
@@ -415,6 +416,17 @@ func (cs *ContractSet) parseClause(body, pos, pkg string, cur **Contract) error 
 		c.Key = c.Target
 		if !strings.Contains(strings.TrimLeft(c.Target, "(*"), ".") || strings.HasPrefix(c.Target, "(") {
 			c.Key = pkg + "." + c.Target
+		} else {
+			// "Iface.Method" (interface contract of this package) versus "pkg.Func"
+			isPkg := false
+			for _, short := range contractDirs {
+				if strings.HasPrefix(c.Target, short+".") {
+					isPkg = true
+				}
+			}
+			if !isPkg {
+				c.Key = pkg + "." + c.Target
+			}
 		}
 		if _, dup := cs.Funcs[c.Key]; dup {
 			return fmt.Errorf("duplicate contract for %s", c.Key)
@@ -527,6 +539,13 @@ func (cs *ContractSet) parseClause(body, pos, pkg string, cur **Contract) error 
 		c.NoMerge = true
 	case "swar":
 		c.Swar = append(c.Swar, strings.Fields(rest)...)
+	case "measure":
+		e, err := parseExpr(rest, pos)
+		if err != nil {
+			return err
+		}
+		c.Measure = &Clause{Kind: "measure", E: e, Text: rest, Pos: pos}
+		cs.NClause++
 	case "implements":
 		c.Implements = strings.TrimSpace(rest)
 	case "reads":
